@@ -51,6 +51,10 @@ def spec_classes(spec, prob):
         c.append("custom_t_ref")
     if spec.get("row_dtype") == "f4":
         c.append("float32 library")
+    if spec.get("t_ref_false"):
+        c.append("t_ref=False")
+    if spec.get("prehistory"):
+        c.append("prehistory:" + spec["prehistory"])
     return c, means
 
 
@@ -59,11 +63,20 @@ def compare_rows(ctx, prob, rows_eff, ll, spec, posterior=False):
     info = {"s>0": False, "cap": False, "hi_e": False}
     for i, row in enumerate(rows_eff):
         if not np.isfinite(ll[i]):
-            raise Violation("marginal ln-likelihood is not finite for a finite valid input", row=row, value=ll[i])
+            # float64 cannot factor a system whose prior variance exceeds the data variance by more than ~1e15
+            # (e.g. a quadratic trend referred to BMJD 0 with t_ref=False): not judged, counted
+            kap = og.evaluate(prob, row)["kappa"]
+            if kap > 1e14:
+                ctx.classes["numerically singular configuration (kappa>1e14): non-finite value not judged"] += 1
+                continue
+            raise Violation("marginal ln-likelihood is not finite for a finite valid input", row=row, value=ll[i], kappa=kap)
         if row["e"] > 0.99:
             info["hi_e"] = True
             continue
         ev = og.evaluate(prob, row)
+        if ev.get("singular"):
+            ctx.classes["numerically singular configuration: no reference value, not judged"] += 1
+            continue
         if row["s"] > 0:
             info["s>0"] = True
         K = spec["prior"]["K"]
@@ -112,6 +125,22 @@ def body_factory(ctx):
         rows_eff = effective_rows(smp, prob.data_unit)
         path = spec.get("path", "mem")
         joker = tj.TheJoker(prior)
+        pre = spec.get("prehistory")
+        if pre:
+            # the same TheJoker / prior object has been used on a related data set before (same epochs and
+            # velocities, other uncertainties; or the same data expressed in another velocity unit)
+            spec2 = dict(spec)
+            if pre == "errors":
+                spec2["surveys"] = [dict(sv, err=[e * 3.0 for e in sv["err"]]) for sv in spec["surveys"]]
+            else:
+                alt = "m/s" if spec["surveys"][0]["unit"] != "m/s" else "km/s"
+                spec2["surveys"] = [dict(sv, unit=alt, rv=[float(og.conv(x, sv["unit"], alt)) for x in sv["rv"]],
+                                         err=[float(og.conv(x, sv.get("err_unit", sv["unit"]), alt)) for x in sv["err"]])
+                                    for sv in spec["surveys"]]
+                for sv in spec2["surveys"]:
+                    sv.pop("err_unit", None)
+            with ctx.sut("marginal_ln_likelihood on a related data set (history)"):
+                joker.marginal_ln_likelihood(gens.build_data(spec2), smp if spec.get("row_units", {}).get("s") else smp, in_memory=True)
         with ctx.sut("marginal_ln_likelihood[%s]" % path):
             if path == "mem":
                 ll = joker.marginal_ln_likelihood(data, smp, in_memory=True)
@@ -142,8 +171,9 @@ def body_factory(ctx):
 @st.composite
 def cases(draw, thorough=False):
     spec = draw(gens.problems(max_surveys=4 if thorough else 3, max_epochs=80 if thorough else 8,
-                              max_poly=4 if thorough else 3, n_rows=(8, 16) if thorough else (4, 8), allow_f4=True))
+                              max_poly=4 if thorough else 3, n_rows=(8, 16) if thorough else (4, 8), allow_f4=True, t_ref="allow_false"))
     spec["path"] = draw(st.sampled_from(["mem", "mem", "mem", "cache", "file"]))
+    spec["prehistory"] = draw(st.sampled_from([None, None, None, "errors", "unit"]))
     if spec["path"] != "mem":
         spec["n_batches"] = draw(st.one_of(st.none(), st.integers(1, len(spec["rows"]) + 2)))
     # a few rows in the finiteness-only class 0.99 < e < 1
